@@ -37,7 +37,7 @@ func discardLogger() *slog.Logger { return slog.New(slog.NewTextHandler(io.Disca
 type outer struct {
 	Base baseSpec `json:"base"`
 	Fp   string   `json:"fp"`
-	Kind string   `json:"kind"` // corrupt | faults | integrity | preexist
+	Kind string   `json:"kind"` // corrupt | faults | integrity | preexist | staletmp
 
 	File     int     `json:"file,omitempty"`
 	Name     string  `json:"name,omitempty"` // L<level>/<min>-<max>, for the reader of a replay file
@@ -50,6 +50,7 @@ type outer struct {
 	Groups [][]sched   `json:"groups,omitempty"`
 	Integ  []integSpec `json:"integ,omitempty"`
 	Pre    []preSpec   `json:"pre,omitempty"`
+	Tmp    []tmpSpec   `json:"tmp,omitempty"`
 }
 
 const f6Key = "panic:truncated-within-8-bytes-after-page-block"
@@ -61,7 +62,8 @@ func init() {
 		Rule: "replicas built by scripted E-HIST histories (seeded write mix, Compact(1)/Compact(2)/Snapshot interleaved so that the plan for the pinned latest TXID is snapshot + L2 + L1 + L0 files; several page sizes, L0 kept or purged); " +
 			"per plan file: delete; truncate / flip one byte at every offset (files up to the tier's size bound) or at every framing boundary (header, each page frame start/+6/+10, end-of-pages marker, page index, trailer) +-8 bytes plus a PRNG sample; " +
 			"read-fault schedules through a ReplicaClient proxy (open error, mid-stream error, premature EOF at framing-aware and random byte offsets of a plan file or of every plan file, repeated 1..5 times, retry budget 3); " +
-			"checksum-valid b-tree page mutations re-encoded with ltx.Encoder for Restore(IntegrityCheck quick|full); pre-existing output paths (file, empty file, directory, symlink). " +
+			"deletions are judged against the pinned TXID and, for every file that is not the newest of the chain, also against an unpinned latest-state restore, on the full replica and on the replica thinned to the files of the plan; " +
+			"checksum-valid b-tree page mutations re-encoded with ltx.Encoder for Restore(IntegrityCheck quick|full); pre-existing output paths (file, empty file, directory, symlink); a stale <output>.tmp (larger / smaller / same size, read-only, directory) left by a killed restore. " +
 			"Each Restore is one evaluation: nil => output bytes == restore of the pristine replica at the same TXID; error => no file at the output path; death of the restoring process => violation of its own class. " +
 			"distinct = (replica layout fingerprint, file, operation, offsets/schedules); non-trivial = the disturbed file belongs to the pinned restore plan (always true by construction for corruptions and fault schedules), SQLite itself rejects the mutated image (integrity cases), the output path existed (pre-existing cases)",
 		Assumptions: []string{
@@ -205,6 +207,13 @@ func cases(run *vf.Run) ([]json.RawMessage, error) {
 		}
 		pre = append(pre, preSpec{Variant: "file", Pin: true, Corrupt: true}, preSpec{Variant: "empty", Pin: true, Integrity: "full", Corrupt: true})
 		rest = append(rest, vf.Spec(outer{Base: m.Spec, Fp: fp, Kind: "preexist", Pre: pre}))
+
+		// (e) stale <output>.tmp
+		var stale []tmpSpec
+		for i, v := range []string{"larger", "larger", "larger", "smaller", "same", "readonly", "dir"} {
+			stale = append(stale, tmpSpec{Variant: v, Pin: i%2 == 0, Integrity: []string{"", "full", "quick"}[i%3], Seed: vf.SubSeed(run.Seed, "C10-tmp", bi, i)})
+		}
+		rest = append(rest, vf.Spec(outer{Base: m.Spec, Fp: fp, Kind: "staletmp", Tmp: stale}))
 	}
 	return append(append(truncs, faults...), rest...), nil
 }
@@ -270,10 +279,27 @@ func (o *outer) expand(m *baseMeta) []item {
 	switch o.Kind {
 	case "corrupt":
 		if o.Op == "delete" {
-			for _, fi := range o.Files {
+			// pristine thinned replica first (evidence that thinning alone
+			// does not disturb the restore), then every deletion against the
+			// pinned TXID and, for files that are not the newest of the chain,
+			// against "latest" - on the full and on the thinned replica
+			for _, unpin := range []bool{false, true} {
 				it := mk()
-				it.File, it.Op = fi, "delete"
+				it.File, it.Op, it.Thin, it.Unpin = o.Files[0], "none", true, unpin
 				its = append(its, it)
+			}
+			newest := o.Files[len(o.Files)-1]
+			for _, fi := range o.Files {
+				for _, thin := range []bool{false, true} {
+					for _, unpin := range []bool{false, true} {
+						if unpin && fi == newest {
+							continue // the older state is the legitimate latest then
+						}
+						it := mk()
+						it.File, it.Op, it.Thin, it.Unpin = fi, "delete", thin, unpin
+						its = append(its, it)
+					}
+				}
 			}
 			break
 		}
@@ -305,6 +331,12 @@ func (o *outer) expand(m *baseMeta) []item {
 		for i := range o.Pre {
 			it := mk()
 			it.Pre = &o.Pre[i]
+			its = append(its, it)
+		}
+	case "staletmp":
+		for i := range o.Tmp {
+			it := mk()
+			it.Tmp = &o.Tmp[i]
 			its = append(its, it)
 		}
 	}
@@ -424,9 +456,9 @@ func runOuter(run *vf.Run, o *outer, dir string) *vf.Result {
 		}
 	}
 	h := fnv.New64a()
-	fmt.Fprint(h, o.Fp, o.Kind, o.File, o.Op, o.Offs, o.Files, o.Groups, o.Integ, o.Pre)
+	fmt.Fprint(h, o.Fp, o.Kind, o.File, o.Op, o.Offs, o.Files, o.Groups, o.Integ, o.Pre, o.Tmp)
 	res.Sig = fmt.Sprintf("%x", h.Sum64())
-	if o.Kind == "corrupt" || o.Kind == "faults" {
+	if o.Kind == "corrupt" || o.Kind == "faults" || o.Kind == "staletmp" {
 		res.Nontrivial = true
 	}
 	res.Count(fmt.Sprintf("replica:page_size_%d", m.PageSize), 1)
